@@ -13,6 +13,11 @@
 
 namespace vu
 {
+   // opaque user rules with the two simpler match signatures (doc/Rules-and-Grammars.md "Simple Rules"): match( in ) and match( in, st... );
+   // nothing is known about them beyond the rule contract - in particular they may throw like any other rule
+   struct PS { using rule_t = PS; using subs_t = empty_list; template< typename I > [[nodiscard]] static bool match( I& in ); };
+   struct PSS { using rule_t = PSS; using subs_t = empty_list; template< typename I, typename... S > [[nodiscard]] static bool match( I& in, S&&... st ); };
+
    // action shapes
    template< typename R > struct act : nothing< R > {};
    template<> struct act< P1 > { template< typename AI, typename... S > static void apply( const AI&, S&&... ); };
@@ -149,6 +154,11 @@ namespace vu
       r = use4< P4, act, normal >( in, st ) && r;
       r = use4< P5, act, normal >( in, st ) && r;
       r = use4< internal::seq< P1, P2 >, act, ctl >( in ) && r;
+      r = use4< PS, act, ctl >( in ) && r;
+      r = use4< PS, act, ctl >( in, st ) && r;
+      r = use4< PS, act, ctl0 >( in ) && r;
+      r = use4< PSS, act, ctl >( in ) && r;
+      r = use4< PSS, act, ctl >( in, st ) && r;
       r = parse< P1, act, ctl >( in ) && r;
       r = parse< P1, act, ctl >( in, st ) && r;
       r = parse_nested< P1, act, ctl >( in, in, st ) && r;
